@@ -214,8 +214,9 @@ class Subroutine(Scope):
     ):
         interface_array = [" ".join(keywords) + signature]
         for i, arg_obj in enumerate(self.arg_objs):
+            # An argument without a declaration has nothing to contribute
             if arg_obj is None:
-                return None
+                continue
             arg_doc, docs = arg_obj.get_hover()
             if i == drop_arg:
                 i0 = arg_doc.lower().find(change_strings[0].lower())
